@@ -415,7 +415,13 @@ impl Engine for OsetEngine {
             if n % 8 == 7 {
                 // H3 under pipeline load: the real element types inside the automaton construction
                 let c = super::lalr_diff::make_case(w.seed, Tier::Quick, 1000 + n, &crate::gen::SmallScope::new());
-                let (out, hc) = kside::generate(&c.src, u64::MAX);
+                // (a step limit derived from the reference automaton: a set that loses elements can keep the
+                // construction going for ever)
+                let Some(r) = crate::lr::build_reference(&c.cfg, 3000) else {
+                    w.count("skipped:reference-too-large");
+                    continue;
+                };
+                let (out, hc) = kside::generate(&c.src, super::lalr_diff::step_limit(&r));
                 w.eval();
                 w.count("pipeline-runs-with-invariant-hook");
                 w.count_n("invariant-checks-inside-pipeline", hc.oset_checks);
